@@ -82,6 +82,11 @@ CHECKS["C04"] = ("exploration",
   "12,000 (150,000) generated (state, invalid call) pairs; every catalogue entry is exercised hundreds of times per quick run (see classes in the evidence).",
   "Trusted: the observer and the independent decoder. Calls that unexpectedly return Ok are left to C06/C07/C20.",
   "DESIGN.md section 4, C04")
+CHECKS["C20"] = ("exploration",
+  "directed boundary generators per capacity limit (L-1, L, L+1; one batch, incrementally across reopen, after deletions) with the expensive near-limit states written by the independent encoder; oracle: Err beyond / Ok within, no panic, nothing changed on Err, saved file reopens and equals the observable state",
+  "53 directed cases in the quick tier (columns, rows, distinct strings through insert and through create_table, table / column / stream name lengths), ~100 in thorough. This is needle search by construction: random generation would not reach 65,536 rows or strings.",
+  "Trusted: the independent encoder for the near-full string pools (self-checked by decoding: exactly N entries). For name lengths the property gives no number, so the oracle there is only Ok => round trip, Err => unchanged.",
+  "DESIGN.md section 4, C20")
 NOT_YET = {}
 
 def main():
